@@ -141,6 +141,16 @@ func c12eval(r *vx.R, c c12case) {
 			all = append(all, rr)
 		}
 		kind, msg := vx.Try(func() {
+			// earlier traffic of the process: verifications (valid, forged with r+s = n+1 i.e. t = 1, forged with tiny t),
+			// a signature - key operations afterwards must not notice
+			pxv, pyv := sm2ref.Pub(bi(a[1]))
+			ev := vx.Fill("c12prime", 32)
+			for _, tv := range []int64{1, 2, 0x35, 0x3fff} {
+				rv := modN(bi(vx.Fill("c12primer", 32)))
+				sv := modN(new(big.Int).Sub(big.NewInt(tv), rv))
+				sm2.VerifyHashed(pxv, pyv, ev, b32(rv), b32(sv))
+			}
+			sm2.SignHashed(bytes.NewReader(a[0]), a[1], ev)
 			for round := 0; round < 2; round++ {
 				d, x, y, err := sm2.GenerateKey(bytes.NewReader(a[0]))
 				if err == nil {
